@@ -1,5 +1,5 @@
 #!/usr/bin/env python3
-"""Re-run every recorded seeded change against the check of its property (4 isolated workers).
+"""Re-run every recorded seeded change against the check of its property (REGRESS_WORKERS isolated workers, default 4).
 usage: [REGRESS_TAG=x] tools/regress_seeds.py [PROP ...]   → /tmp/seeds/regress_<tag>.txt (tag default r; use your own tag when others may be running it)
 violating seeds must end in a VIOLATION with a failing input (or be recorded as fact-only / caught by a sibling);
 harmless ones must never produce a failing input."""
@@ -26,6 +26,7 @@ def run(job, slot):
     else: verdict = 'failing-input'
     return sid, p, harmless, verdict
 import queue, threading
+NW = int(os.environ.get('REGRESS_WORKERS', '4'))
 q = queue.Queue(); [q.put(j) for j in jobs]; res = []; lock = threading.Lock()
 def worker(slot):
     while True:
@@ -36,11 +37,12 @@ def worker(slot):
             res.append(r)
             with open(OUT, 'a') as f: f.write(' '.join(map(str, r)) + '\n')
 open(OUT, 'w').close()
-ts = [threading.Thread(target=worker, args=(i,)) for i in range(4)]
+ts = [threading.Thread(target=worker, args=(i,)) for i in range(NW)]
 [t.start() for t in ts]; [t.join() for t in ts]
-bad = [r for r in res if (r[2] and r[3] == 'failing-input') or (not r[2] and r[3] != 'failing-input')]
+EXPECTED = {'c05k': 'caught by C07, not by C05 (recorded)', 'c09d': 'fact-only by decision (recorded)', 'c13o': 'caught by C11; percentiles are not C13\'s clause (recorded)'}
+bad = [r for r in res if r[0] not in EXPECTED and ( (r[2] and r[3] == 'failing-input') or (not r[2] and r[3] != 'failing-input'))]
 print(len(res), 'seeds re-run;', len(bad), 'to look at:')
 for r in sorted(bad): print('  ', *r)
-for i in range(4):
+for i in range(NW):
     subprocess.run(['git', '-C', '/repo', 'worktree', 'remove', '--force', f'/tmp/vseed_{TAG}{i}/repo'], capture_output=True)
     subprocess.run(['rm', '-rf', f'/tmp/vseed_{TAG}{i}'])
